@@ -184,7 +184,7 @@ PROPS["C15"] = P([("lapool", "fast", 5000, 0.4), ("lapool", "trace", 2500, 0.3),
                    "op:copy_default", "caller_threads", "fault:alloc_fail"])
 
 PROPS["C18"] = P([("gridfiles", "asan", 1200, 0.8), ("gridfiles", "fast", 500, 0.2)],
-    "histories {generate(params) -> invariants -> every-second-node subgrid -> levels via setup() -> writeToFile(precision) -> "
+    "histories {generate(params; domains in other length units up to Rmax = 1300) -> invariants -> every-second-node subgrid -> levels via setup() -> writeToFile(precision 12..25) -> "
     "fault -> load / setup(load_grid_file)} over nr_exp 1..7, ntheta_exp -1..8, anisotropic_factor 0..6, divideBy2 0..3, R0, Rmax, "
     "refinement radius inside / outside / at the ends of [R0,Rmax] and the CLI default 0, level caps; faults: open_fail, "
     "write_fail (ENOSPC/EIO), short_write, crash_after_write (clean or torn) at EVERY write index of small grids over the previous "
